@@ -3,6 +3,7 @@
 import collections
 import gettext
 import io
+import re
 import textwrap
 
 from wpull.collections import OrderedDefaultDict
@@ -44,7 +45,7 @@ class NameValueRecord(collections.MutableMapping):
         else:
             self.raw += string
 
-        lines = unfold_lines(string).splitlines()
+        lines = split_lines(unfold_lines(string))
         for line in lines:
             if line:
                 if ':' not in line:
@@ -166,6 +167,20 @@ def guess_line_ending(string):
         return '\n'
 
 
+def split_lines(string):
+    '''Split the string into lines at CRLF and LF.
+
+    Unlike ``str.splitlines()``, characters such as vertical tab, form feed,
+    the file/group/record separators or NEL do not end a line.
+    '''
+    lines = re.split(r'\r?\n', string)
+
+    if lines and not lines[-1]:
+        del lines[-1]
+
+    return lines
+
+
 def unfold_lines(string):
     '''Join lines that are wrapped.
 
@@ -173,7 +188,7 @@ def unfold_lines(string):
     line.
     '''
     assert isinstance(string, str), 'Expect str. Got {}'.format(type(string))
-    lines = string.splitlines()
+    lines = split_lines(string)
     line_buffer = io.StringIO()
 
     for line_number in range(len(lines)):
